@@ -91,6 +91,9 @@ def _m1_common(res, prop):
             fkey = "%s%s" % (f, "+assertions" if out["asrt"] else "")
             fam[fkey] = fam.get(fkey, 0) + n
         res.extra["recursion_error_runs"] = res.extra.get("recursion_error_runs", 0) + out["recursion"]
+        if "continued" in out:
+            res.extra["simulated_histories"] = {"behaviours": out["tlc"].get("simulated_behaviours"), "calls_replayed": out["n"],
+                                                "calls_continuing_on_live_objects": out["continued"], "longest_chain": out["longest_chain"]}
     res.extra["configs"] = [dict(o["config"]) for o in outs if o["families"][0] == "mixin" and not o["asrt"]]
     if prop in ("C01", "C02", "C03"):
         q = m1_ops.run_quiet(res.tier)
